@@ -9,7 +9,7 @@ from harness import explog as E
 
 PID = "C02"
 OPS = {"exp_so3", "exp_se3_gen", "exp_se23_gen", "exp_se3_screw", "exp_se23_screw", "hom_se3", "hom_so3",
-       "exp_so2", "exp_se2", "exp_rn", "exp_prod"}
+       "exp_so2", "exp_se2", "exp_rn", "exp_prod", "hom_c"}
 
 
 def call(f, *args):
@@ -84,6 +84,28 @@ def replay(run, cache, tv):
         th = math.atan2(s, c)
         M = np.array(ca.DM(L.so2.elem(ca.DM([th])).exp(L.SO2).to_Matrix()))
         cmp.vec("SO2/exp/matrix", "SO2 exp is not the rotation by theta", M, rm_to_np(tv["exp"]), tv)
+    elif op == "hom_c":
+        # R(a) R(b) for planar rotations, with each angle also taken on the other side (|theta| in [pi, 2 pi)), so that
+        # the sum falls below -pi, above pi and in between; and the same composition inside SE(2) with translations
+        a0 = math.atan2(tv["cs"][1], tv["cs"][0]); b0 = math.atan2(tv["cs2"][1], tv["cs2"][0])
+        want = rm_to_np(tv["exp"])
+        other = lambda t: t - 2 * math.pi * (1 if t > 0 else -1) if t != 0 else t
+
+        def se2m(th, rho):
+            M = np.eye(3); c_, s_ = math.cos(th), math.sin(th)
+            M[:2, :2] = [[c_, -s_], [s_, c_]]
+            V = np.eye(2) if th == 0 else np.array([[s_, -(1 - c_)], [1 - c_, s_]]) / th
+            M[:2, 2] = V @ rho
+            return M
+        for a in (a0, other(a0)):
+            for b in (b0, other(b0)):
+                X = L.so2.elem(ca.DM([a])).exp(L.SO2) * L.so2.elem(ca.DM([b])).exp(L.SO2)
+                cmp.vec("SO2/exp/composition", "exp(a) exp(b) is not the rotation by a + b", np.array(ca.DM(X.to_Matrix())), want, tv)
+                r1, r2 = np.array([1.0, -0.5]), np.array([-2.0, 0.25])
+                Y = L.se2.elem(ca.DM([r1[0], r1[1], a])).exp(L.SE2) * L.se2.elem(ca.DM([r2[0], r2[1], b])).exp(L.SE2)
+                cmp.vec("SE2/exp/composition", "exp(x) exp(y) differs from the product of their matrices", np.array(ca.DM(Y.to_Matrix())), se2m(a, r1) @ se2m(b, r2), tv)
+                Yi = (L.se2.elem(ca.DM([r1[0], r1[1], a])).exp(L.SE2)).inverse()
+                cmp.vec("SE2/exp/inverse", "exp(x)^-1 is not the inverse matrix", np.array(ca.DM(Yi.to_Matrix())), np.linalg.inv(se2m(a, r1)), tv)
     elif op == "exp_se2":
         c, s, h = tv["cs"]
         th = math.atan2(s, c)
